@@ -40,6 +40,7 @@ func (e *Engine) verifyFunc(fn *ssa.Function, fc *FuncContract) (c *FnCtx, err e
 
 func (c *FnCtx) run() {
 	fn := c.fn
+	c.dynOn = c.eng.usesDyn(c.fc)
 	st := &State{cells: map[*ssa.Alloc]Val{}, heap: map[string]string{}, reach: "true", ghostInts: map[string]string{}}
 	for _, ct := range c.fc.Counters {
 		st.ghostInts[ct[0]] = "0"
@@ -1065,6 +1066,11 @@ func (c *FnCtx) allocRef(st *State, hint string) string {
 	st.nextRef = c.define("nextRef", sInt, plus(st.nextRef, "1"))
 	c.eng.knownNonNil[r] = true
 	c.assert(lt("0", r))
+	if c.dynOn {
+		// every allocation gets a dynamic type tag; 0 = not one of the tracked struct types (overwritten by execAlloc)
+		dm := c.heapGet(st, "G$dyn.type", arrSort(sInt))
+		c.heapSet(st, "G$dyn.type", arrSort(sInt), sto(dm, r, "0"))
+	}
 	return r
 }
 
@@ -1079,6 +1085,10 @@ func (c *FnCtx) execAlloc(st *State, in *ssa.Alloc) {
 	p := VPtr{Root: rootObj, Ref: r, T: t}
 	c.vals[in] = p
 	c.zeroInit(st, p, t)
+	if tag := c.eng.dynTag(t); tag != "" && c.dynOn {
+		dm := c.heapGet(st, "G$dyn.type", arrSort(sInt))
+		c.heapSet(st, "G$dyn.type", arrSort(sInt), sto(dm, r, tag))
+	}
 	if types.TypeString(t, nil) == "strings.Builder" {
 		lm := c.heapGet(st, "G$sb.len", arrSort(sInt))
 		c.heapSet(st, "G$sb.len", arrSort(sInt), sto(lm, r, "0"))
